@@ -189,6 +189,7 @@ def nontrivial(ops, model_lines):
 def fingerprint(ops, d):
     if not d: return 'schedule-dependent-not-reproduced'
     txt = d[1] or ''
+    if 'output ends' in txt: return 'crash-or-sanitizer-report'
     for key, fp in (('not joined', 'cleanup-unjoined-worker'), ('had not finished', 'cleanup-unjoined-worker'),
                     ('drain:', 'task-never-executed'), ('settle:', 'task-never-executed'), ('DEADLOCK', 'cleanup-deadlock'), ('NOT FOUND', 'status-not-found-then-runs'), ('cancellable', 'waiting-after-start'),
                     ('tsan', 'tsan-data-race'), ('signal6', 'abort'), ('signal11', 'segv'), ('pick order', 'pick-order'),
